@@ -83,7 +83,10 @@ class World:
         # non-default configurations of the entry points, constant within one behaviour (so that a repeated call
         # is the same call): i-vector training without covariance updating and with a floor above some of the
         # UBM's variances, k-means / GMM with or without a convergence threshold
-        self.cfg = {"iv_update_sigma": bool(r.rand() < 0.5), "iv_floor": float(r.choice([1e-10, 0.9, 1.2]))}
+        self.cfg = {"iv_update_sigma": bool(r.rand() < 0.5), "iv_floor": float(r.choice([1e-10, 0.9, 1.2])),
+                    # ISV / JFA given a trained UBM AND the options from which they would build one if they had none
+                    "fa_ubm_kwargs": [None, dict(n_gaussians=2), dict(n_gaussians=2, max_fitting_steps=3, update_variances=True,
+                                                                       update_weights=True)][r.randint(0, 3)]}
 
     # -- caller cells
     def cell(self, name):
@@ -192,9 +195,10 @@ class World:
             return em.linear_scoring(models, self.prior, self.stats, 0, True)
         if op in ("FaFit", "FaFitUsingArray"):
             if self.fam == "isv":
-                f = em.ISVMachine(r_U=1, em_iterations=2, ubm=self.prior, random_state=0)
+                f = em.ISVMachine(r_U=1, em_iterations=2, ubm=self.prior, random_state=0, ubm_kwargs=self.cfg["fa_ubm_kwargs"])
             else:
-                f = em.JFAMachine(r_U=1, r_V=1, em_iterations=2, ubm=self.prior, random_state=0)
+                f = em.JFAMachine(r_U=1, r_V=1, em_iterations=2, ubm=self.prior, random_state=0,
+                                  ubm_kwargs=self.cfg["fa_ubm_kwargs"])
             return f.fit(self.lst(form), self.y) if op == "FaFit" else f.fit_using_array(self.arr(form), self.y)
         if op == "FaEnroll":
             return self.machine(m).enroll(self.stats)
